@@ -3,7 +3,7 @@ import json, os, sys, time, subprocess, re, hashlib, collections
 import vlib
 from vlib import VERIF
 
-REPLAYS = os.path.join(VERIF, 'replays')
+REPLAYS = os.environ.get('VERIF_REPLAY_DIR', os.path.join(VERIF, 'replays'))
 SCRATCH = os.path.join(VERIF, 'build', 'scratch')
 
 
